@@ -5,7 +5,7 @@ mkdir -p .work/matrix
 ls -d seeded/C*-r* | sort > .work/matrix/all.txt
 split -n l/4 -d .work/matrix/all.txt .work/matrix/lane
 for lane in .work/matrix/lane0*; do
-  ( while read d; do python3 tools/seedtest.py "$d" > ".work/matrix/$(basename $d).json" 2>&1; done < "$lane" ) &
+  ( while read d; do python3 tools/seedtest.py "$d" ${SEED_CHECKS:+--checks $SEED_CHECKS} > ".work/matrix/$(basename $d).json" 2>&1; done < "$lane" ) &
 done
 wait
 python3 - <<'PY'
